@@ -1,4 +1,4 @@
 SPECIFICATION TSpec
-INVARIANT GapsFollowSchedule
+INVARIANTS GapsFollowSchedule BudgetOK
 POSTCONDITION Accepted
 CHECK_DEADLOCK FALSE
